@@ -220,23 +220,18 @@ def _tree_text(case, files, defaults):
 
 
 def _rpm_sqlite_class(case, f, files):
-    """class predicate of the known finding: real-directory route, every difference is on an rpmdb.sqlite or its
-    -wal/-shm/-journal sibling, and such a sibling was present in the tree"""
+    """class predicate of the known finding (the scanned rpmdb.sqlite is opened read-write): real-directory route, and
+    every difference is on an rpmdb.sqlite of the tree or on the -wal/-shm/-journal file SQLite keeps beside it
+    (checkpointed database, deleted or rewritten -wal/-shm, an empty -wal left behind)"""
     t = case.split(' ')
     if t[1] != 'r' or f.get('tmp') != '-' or f.get('cwd') != '-' or len(t[3]) != len(files):
         return False
     items = _dec_items(f.get('diff'))
     if not items:
         return False
-    dirs = set()
     for it in items:
-        p = it.split(' ')[1]
-        m = re.match(r'^(.*)/rpmdb\.sqlite(-wal|-shm|-journal)?$', p)
-        if not m:
-            return False
-        dirs.add(m.group(1))
-    for d in dirs:
-        if not any(files[k] in (d + '/rpmdb.sqlite-wal', d + '/rpmdb.sqlite-shm', d + '/rpmdb.sqlite-journal') and c != '5' for k, c in enumerate(t[3])):
+        m = re.match(r'^(.*)/rpmdb\.sqlite(-wal|-shm|-journal)?$', it.split(' ')[1])
+        if not m or not any(files[k] == m.group(1) + '/rpmdb.sqlite' and c != '5' for k, c in enumerate(t[3])):
             return False
     return True
 
